@@ -120,10 +120,16 @@ class Program:
         self.repo = repo or REPO
         self.alpha_renames = []
         self._alpha_ref = None
+        self._known_functions = None
         if alpha:
             from . import alpha as _alpha
-            self._alpha_ref = _alpha.load_reference(
-                os.path.dirname(os.path.dirname(os.path.abspath(__file__))))
+            verif = os.path.dirname(os.path.dirname(os.path.abspath(__file__)))
+            self._alpha_ref = _alpha.load_reference(verif)
+            kp = os.path.join(verif, 'reference', 'functions.json')
+            if os.path.exists(kp):
+                import json as _json
+                with open(kp, encoding='utf-8') as fh:
+                    self._known_functions = set(_json.load(fh)['functions'])
         self.modules = {}
         self.classes = {}
         self.functions = {}
@@ -131,6 +137,7 @@ class Program:
         self._load(os.path.join(self.repo, 'stone'), 'stone')
         for root, pkg in extra_roots:
             self._load(root, pkg)
+        self._normalise()
         for m in self.modules.values():
             self._index_module(m)
         for c in list(self.classes.values()):
@@ -162,16 +169,36 @@ class Program:
                     tree = ast.parse(src, filename=path)
                 except SyntaxError as e:
                     raise AnalysisError('cannot parse %s: %s' % (rel, e))
-                from . import alpha as _alpha
-                _alpha.normalise_comparisons(tree)
-                _alpha.normalise_negated_tests(tree)
-                _alpha.normalise_conditional_assignments(tree)
-                if self._alpha_ref is not None:
-                    _alpha.normalise_module(tree, name, self._alpha_ref, self.alpha_renames)
-                for node in ast.walk(tree):
-                    for child in ast.iter_child_nodes(node):
-                        child._parent = node
                 self.modules[name] = Module(name, path, rel, src, tree, is_pkg)
+
+    def _normalise(self):
+        """Normal forms, virtual inlining of helpers the reference tree does not
+        have, alpha-normalisation of locals, parent links - in that order, on
+        the in-memory ASTs only."""
+        from . import alpha as _alpha
+        from . import normalforms as _nf
+        from . import inline as _inline
+        trees = {name: m.tree for name, m in self.modules.items()}
+        for tree in trees.values():
+            _nf.normalise(tree)
+            _alpha.normalise_comparisons(tree)
+            _alpha.normalise_negated_tests(tree)
+            _alpha.normalise_conditional_assignments(tree)
+        self.inlined = []
+        if self._known_functions is not None:
+            self.inlined = _inline.inline_new_helpers(trees, self._known_functions)
+            if self.inlined:
+                # the spliced code may again contain the normalisable spellings
+                for tree in trees.values():
+                    _alpha.normalise_negated_tests(tree)
+                    _alpha.normalise_conditional_assignments(tree)
+        for name, tree in trees.items():
+            if self._alpha_ref is not None:
+                _alpha.normalise_module(tree, name, self._alpha_ref, self.alpha_renames,
+                                        self._known_functions)
+            for node in ast.walk(tree):
+                for child in ast.iter_child_nodes(node):
+                    child._parent = node
 
     # ------------------------------------------------------------------
     def _abs_module(self, m, level, modname):
